@@ -134,20 +134,30 @@ func encodeLength(out *bytes.Buffer, length int) (err error) {
 
 func readObject(ber []byte, offset int) (asn1Object, int, error) {
 	//fmt.Printf("\n====> Starting readObject at offset: %d\n\n", offset)
+	errTruncated := errors.New("ber2der: truncated BER data")
+	if offset < 0 || offset >= len(ber) {
+		return nil, 0, errTruncated
+	}
 	tagStart := offset
 	b := ber[offset]
 	offset++
 	tag := b & 0x1F // last 5 bits
 	if tag == 0x1F {
 		tag = 0
-		for ber[offset] >= 0x80 {
+		for offset < len(ber) && ber[offset] >= 0x80 {
 			tag = tag*128 + ber[offset] - 0x80
 			offset++
+		}
+		if offset >= len(ber) {
+			return nil, 0, errTruncated
 		}
 		tag = tag*128 + ber[offset] - 0x80
 		offset++
 	}
 	tagEnd := offset
+	if offset >= len(ber) {
+		return nil, 0, errTruncated
+	}
 
 	kind := b & 0x20
 	/*
@@ -166,6 +176,9 @@ func readObject(ber []byte, offset int) (asn1Object, int, error) {
 		numberOfBytes := (int)(l & 0x7F)
 		if numberOfBytes > 4 { // int is only guaranteed to be 32bit
 			return nil, 0, errors.New("ber2der: BER tag length too long")
+		}
+		if offset+numberOfBytes > len(ber) {
+			return nil, 0, errTruncated
 		}
 		if numberOfBytes == 4 && (int)(ber[offset]) > 0x7F {
 			return nil, 0, errors.New("ber2der: BER tag length is negative")
